@@ -232,10 +232,23 @@ def builder_edit(draw, spec):
             cands.append(("choice", n, "instance_type"))
         if e["cls"] == "GPUServer":
             cands.append(("q", n, "ram_per_gpu"))
+    for n in sorted(S.spec_reachable(spec)):
+        e = spec["objs"][n]
+        if e["cls"] in ("VideoStreamingJob", "WebApplicationJob", "GenAIJob"):
+            scls = spec["objs"][e["service"]]["cls"]
+            pool = [t for t, te in spec["objs"].items() if te["cls"] == scls and t != e["service"]]
+            if e["cls"] == "WebApplicationJob":
+                impl = e.get("implementation_details", "default")
+                pool = [t for t in pool if (spec["objs"][t]["technology"], impl) in G.web_choices()]
+            for t in pool:
+                cands.append(("link", n, t))
+                cands.append(("link", n, t))
     if not cands:
         return None
     k, n, a = draw(st.sampled_from(cands))
     e = spec["objs"][n]
+    if k == "link":
+        return dict(op="link", obj=n, attr="service", target=a)
     if k == "q":
         cur = e.get(a) or S.default_quantity(e["cls"], a)
         f = draw(st.sampled_from([0.5, 2.0, 3.0]))
